@@ -37,6 +37,15 @@ func buildTool(dir, name, pkg string, env ...string) (string, error) {
 const fakeGoScript = `#!/bin/sh
 # fake "go" for the profiler checks: "go tool objdump <binary>" prints $FAKE_LISTING,
 # optionally only its first $FAKE_CUT bytes, then exits with $FAKE_EXIT or kills itself.
+# With FAKE_PAUSE_AT=p and FAKE_PAUSE_FILE=f it prints the first p bytes, creates f.reached, waits until f exists and
+# prints the rest (two overlapping profiler runs are scheduled by the harness this way).
+if [ -n "$FAKE_PAUSE_AT" ]; then
+  head -c "$FAKE_PAUSE_AT" "$FAKE_LISTING" || exit 1
+  : > "$FAKE_PAUSE_FILE.reached"
+  n=0; while [ ! -e "$FAKE_PAUSE_FILE" ] && [ $n -lt 3000 ]; do sleep 0.01; n=$((n+1)); done
+  tail -c +$((FAKE_PAUSE_AT+1)) "$FAKE_LISTING" || exit 1
+  exit ${FAKE_EXIT:-0}
+fi
 # a write error of its own (injected by the harness) makes it fail like any tool that checks its output
 if [ -n "$FAKE_CUT" ]; then head -c "$FAKE_CUT" "$FAKE_LISTING" || exit 1; else cat "$FAKE_LISTING" || exit 1; fi
 if [ "$FAKE_KILL" = "self" ]; then kill -9 $$; fi
